@@ -51,6 +51,11 @@ for _k in (-5, -2, -1, 0, 1, 2, 3, 4, 7):
 for _mode in ('constant', 'edge', 'wrap', 'symmetric', 'reflect'):
     for _w in ('((0, 0), (1, 1), (0, 0))', '((2, 0), (0, 3), (0, 0))', '((1, 2), (2, 1), (0, 0))', '((0, 0), (0, 0), (0, 0))'):
         _EXPRS.append((f'np.pad(a, {_w}, mode="{_mode}")', (3, 4, 2), None))
+for _m in (3, 4, 7):
+    _EXPRS.append(('np.gradient(a, 0.5, edge_order=2)', (_m,), None))
+    _EXPRS.append(('np.convolve(a, [1, -2, 1], "same")', (_m,), None))
+_EXPRS.append(('np.gradient(a, 0.25, edge_order=1)', (2,), None))
+_EXPRS.append(('np.gradient(a, 2.0, edge_order=1)', (5,), None))
 _EXPRS.append(('np.pad(a, ((7, 5), (0, 0)), mode="wrap")', (3, 2), None))
 _EXPRS.append(('np.pad(a > 0, ((1, 1), (2, 0)), mode="constant")', (3, 2), None))
 
